@@ -1,4 +1,5 @@
 """Which machinery decides which property."""
+import extras
 
 PROPS = {
     'C05': {'level': 'proof', 'verus_units': ['vm_core'],
@@ -26,4 +27,9 @@ PROPS = {
             'explanation': 'graph layer only: malformed graphs rejected (create_parent_map Ok <==> graph_ok), helpers panic-free on every graph; orchestration not covered'},
     'C03': {'level': 'other', 'verus_units': ['check_core', 'vm_core'],
             'explanation': 'state-read routing (vm_core), overlay fallback for contracts without mutations, key successor (bounded), deferral helpers panic-free; two-pass sequencing not covered'},
+    'C13': {'level': 'proof', 'verus_units': ['asm_core'], 'extra': [extras.asm_table],
+            'explanation': 'the codec the proc-macro generated (macro-expanded text of the working tree) is verified against spec tables generated from asm.yml by an independent YAML reading: '
+                           'opcode <-> byte tables, immediates, per-op encode/decode, the byte iterators; sequence-level round trips are Verus lemmas over those tables; pinned-table comparison'},
+    'C15': {'level': 'proof', 'verus_units': ['asm_core'],
+            'explanation': 'analyze(ops) returns exactly the union of the effect flags of the ops (all slices); bytes_contains_any is outside Verus (by_ref/take/for_each) and checked bounded'},
 }
